@@ -17,7 +17,7 @@ RULE = ("every canonical vertex sequence (start at the smallest grid point, seco
 BOUND = {"quick": "all simple grid polygons with 3..5 vertices (4x4 grid), all shifts and orientations; stars/regular 3..80; all sub-tissues of a 7-cell base",
          "thorough": "all simple grid polygons with 3..6 vertices (4x4 grid); all sub-tissues of 11-cell base and square3x3"}
 ASSUMPTIONS = ["zero-area vertex sequences are not polygons and are not generated", "y-up frame"]
-REQUIRED_TAGS = {"all": ["polygon_block", "star", "subtissue_holefree", "nonconvex", "history", "vertex_only_neighbours", "removed_1", "removed_2"]}
+REQUIRED_TAGS = {"all": ["polygon_block", "star", "subtissue_holefree", "nonconvex", "history", "vertex_only_neighbours", "removed_1", "removed_2", "two_frames_at_0", "two_frames_at_1"]}
 
 GRID = [(x, y) for y in range(4) for x in range(4)]
 
@@ -393,13 +393,14 @@ class RemovalHistories:
         self.bound = depth
 
     def initial(self):
-        return [{"removed": []}]
+        # frame: None = a one-frame ForSys; 0 / 1 = removals at that frame of a two-frame ForSys (same tissue at two times)
+        return [{"removed": [], "frame": f} for f in (None, 0, 1)]
 
     def actions(self, d):
         return [["remove", c] for c in sorted(self.at["C"], key=int) if c not in d["removed"]]
 
     def step(self, d, a):
-        return {"removed": d["removed"] + [a[1]]}
+        return {"removed": d["removed"] + [a[1]], "frame": d["frame"]}
 
     @staticmethod
     def _observe(frame, inv):
@@ -418,23 +419,40 @@ class RemovalHistories:
         import forsys as fs
         import gc
         cm = T.CMap([T.mob(0.04 + 0.02j)]) if self.k else T.CMap()
+        fno = d["frame"] or 0
         with fsutil.quiet():
-            v, e, c, info = T.realise(self.at, k=self.k, cmap=cm)
-            s = fs.ForSys({0: T.frame_of(v, e, c)})
+            if d["frame"] is None:
+                v, e, c, info = T.realise(self.at, k=self.k, cmap=cm)
+                s = fs.ForSys({0: T.frame_of(v, e, c)})
+            else:
+                frames = {}
+                for t in range(2):
+                    v, e, c, info = T.realise(self.at, k=self.k, cmap=cm)
+                    frames[t] = T.frame_of(v, e, c, fid=t, time=float(t))
+                s = fs.ForSys(frames, cm=False)
+                del frames
         cellid = dict(info["cellid"])
         inv = {fid: cid for cid, fid in cellid.items()}
         del v, e, c, info
         viol, tags = [], []
         obs = None
+        if d["frame"] is not None:
+            tags.append("two_frames_at_%d" % fno)
         for n, cid in enumerate(d["removed"]):
             with fsutil.quiet():
-                _, ex = fsutil.call(s.remove_cell, 0, cellid[cid])
+                _, ex = fsutil.call(s.remove_cell, fno, cellid[cid])
             if ex is not None:
                 viol.append({"what": "remove_cell raised", "detail": {"removed": d["removed"][:n + 1], "exc": fsutil.exc_str(ex)}})
                 ex = None
                 break
             tags.append("removed_%d" % (n + 1))
-            obs = self._observe(s.frames[0], inv)
+            if d["frame"] is not None:
+                other = self._observe(s.frames[1 - fno], inv)
+                if sorted(other["share"], key=int) != sorted(self.at["C"], key=int) or any(other["stored"][x] != other["share"][x] for x in other["share"]):
+                    viol.append({"what": "remove_cell at one frame changed the cells (or left stale neighbours) of another frame",
+                                 "detail": {"asked_frame": fno, "other_frame_cells": len(other["share"]), "expected": len(self.at["C"])}})
+                    break
+            obs = self._observe(s.frames[fno], inv)
             remaining = sorted(set(self.at["C"]) - set(d["removed"][:n + 1]), key=int)
             if sorted(obs["share"], key=int) != remaining:
                 viol.append({"what": "after remove_cell the frame does not hold exactly the remaining cells", "detail": {"got": sorted(obs["share"], key=int), "exp": remaining}})
@@ -460,8 +478,8 @@ class RemovalHistories:
                     break
             else:
                 tags.append("subtissue_with_hole_or_pinch")
-        key = "%s|%s" % (self.base, ",".join(d["removed"]))
-        return {"key": key, "viol": viol, "tags": sorted(set(tags)), "cls": "%d/%s" % (len(d["removed"]), fsutil.state_hash(obs["share"] if obs else None)[:8]),
+        key = "%s|%s|%s" % (self.base, d["frame"], ",".join(d["removed"]))
+        return {"key": key, "viol": viol, "tags": sorted(set(tags)), "cls": "%s/%d/%s" % (d["frame"], len(d["removed"]), fsutil.state_hash(obs["share"] if obs else None)[:8]),
                 "nontrivial": bool(d["removed"]), "obs": None}
 
     def check_edge(self, d, a, d2, r, r2):
